@@ -437,7 +437,8 @@ func (c *fnCtx) run() string {
 	out.WriteString("\n")
 	out.WriteString(ssaText(f))
 	out.WriteString("-/\n")
-	out.WriteString("namespace Low.Gen.Ssa\n\n")
+	out.WriteString("namespace Low.Gen.Ssa\n")
+	out.WriteString("set_option linter.unusedVariables false\n\n")
 	fmt.Fprintf(&out, "def %s %s : %s :=\n", leanName, strings.Join(params, " "), c.resType)
 	out.WriteString(c.body.String())
 	out.WriteString("\nend Low.Gen.Ssa\n")
@@ -543,7 +544,7 @@ func (c *fnCtx) setupReceiver(p *ssa.Parameter, params *[]string) {
 	}
 	for k := 0; k < st.NumFields(); k++ {
 		ft := st.Field(k).Type()
-		supported := isIntType2(ft) || isBool(ft)
+		supported := isIntType(ft) || isBool(ft)
 		if !supported {
 			if accessed[k] {
 				fail("access to receiver field %s of unsupported type %s", st.Field(k).Name(), ft)
@@ -559,9 +560,6 @@ func (c *fnCtx) setupReceiver(p *ssa.Parameter, params *[]string) {
 	}
 	sort.Ints(c.stored)
 }
-
-// isIntType2 is isIntType without panicking on unsupported basic kinds.
-func isIntType2(t types.Type) bool { return isIntType(t) }
 
 // ---------------------------------------------------------------------------
 // blocks
@@ -691,7 +689,7 @@ func (c *fnCtx) emitGoto(from *ssa.BasicBlock, succ int, ind int, cur map[int]st
 		if !ok {
 			break
 		}
-		args = append(args, c.operandArg(phi.Edges[edge]))
+		args = append(args, c.operand(phi.Edges[edge]))
 	}
 	for _, k := range c.stored {
 		args = append(args, cur[k])
@@ -721,7 +719,7 @@ func (c *fnCtx) constant(k *ssa.Const) string {
 			fail("non-nil error constant")
 		}
 		return "(none : GoSem.Err)"
-	case isIntOK(t):
+	case isIntType(t):
 		if k.Value == nil {
 			fail("bad integer constant")
 		}
@@ -744,9 +742,6 @@ func isBoolOrUntypedBool(t types.Type) bool {
 	return ok && (k == types.Bool || k == types.UntypedBool)
 }
 
-// isIntOK is isIntType that does not panic for other basic kinds.
-func isIntOK(t types.Type) bool { return isIntType(t) }
-
 func (c *fnCtx) operand(v ssa.Value) string {
 	switch x := v.(type) {
 	case *ssa.Const:
@@ -768,10 +763,6 @@ func (c *fnCtx) operand(v ssa.Value) string {
 	fail("use of a value outside the supported subset: %s = %s", v.Name(), v)
 	return ""
 }
-
-// operandArg: operand in argument position (negative literals etc. are
-// already parenthesised by constant()).
-func (c *fnCtx) operandArg(v ssa.Value) string { return c.operand(v) }
 
 // asInt renders an integer operand as a Lean `Int`.
 func (c *fnCtx) asInt(v ssa.Value) string {
